@@ -101,13 +101,19 @@ type version struct {
 func step(m fp.Map[int, int], md *model, k int, tag string) (fp.Map[int, int], *model) {
 	nd := md.clone()
 	v := zz.Int("v" + tag)
-	switch zz.Choice("op"+tag, 3) {
+	switch zz.Choice("op"+tag, 4) {
 	case 0:
 		nd.set(k, v)
 		return m.Updated(k, v), nd
 	case 1:
 		nd.del(k)
 		return m.Removed(k), nd
+	case 3:
+		// several keys in one call: the symbolic key and two keys that live in other parts of the trie
+		nd.del(k)
+		nd.del(100)
+		nd.del(107)
+		return m.Removed(k, 100, 107), nd
 	}
 	other := fp.Map[int, int]{}.Updated(k, v)
 	nd.set(k, v)
@@ -165,11 +171,11 @@ func branching(name string) {
 	h.hs = append(h.hs, 1|5<<5)
 	ka := zz.Int("ka")
 	kb := ka
-	switch zz.Choice("kb", 3) {
+	switch zz.Choice("kb", zz.Bound("kbchoices", 2, 3)) {
 	case 1:
-		kb = 100
-	case 2:
 		kb = 555
+	case 2:
+		kb = 100
 	}
 	probes := []int{ka, kb}
 	vs := []version{{"v0", m0, d0}}
